@@ -23,6 +23,9 @@ type Helium struct {
 	subs      *haxmap.Map[uint32, entry]
 	interval  time.Duration
 	unsubChan chan uint32
+	// stopped is closed when the dispatch loop is not (or no longer) running
+	stopped  chan struct{}
+	unsubMux sync.Mutex
 }
 
 type entry struct {
@@ -38,6 +41,7 @@ func New(ctx context.Context, config types.GRPCConfig, store store.Store) *Heliu
 		store:     store,
 		subs:      haxmap.New[uint32, entry](),
 		unsubChan: make(chan uint32),
+		stopped:   make(chan struct{}),
 	}
 	if h.interval < time.Second {
 		h.interval = interval
@@ -64,7 +68,22 @@ func (h *Helium) Subscribe(ctx context.Context) (uuid.UUID, <-chan types.Service
 
 // Unsubscribe .
 func (h *Helium) Unsubscribe(ID uuid.UUID) {
-	h.unsubChan <- ID.ID()
+	select {
+	case h.unsubChan <- ID.ID():
+	case <-h.stopped:
+		// nobody serves unsubChan any more, release the subscriber here
+		h.unsubscribe(ID.ID())
+	}
+}
+
+func (h *Helium) unsubscribe(ID uint32) {
+	h.unsubMux.Lock()
+	defer h.unsubMux.Unlock()
+	if entry, ok := h.subs.Get(ID); ok {
+		entry.cancel()
+		h.subs.Del(ID)
+		close(entry.ch)
+	}
 }
 
 func (h *Helium) start(ctx context.Context) {
@@ -72,10 +91,12 @@ func (h *Helium) start(ctx context.Context) {
 	ch, err := h.store.ServiceStatusStream(ctx)
 	if err != nil {
 		logger.Error(ctx, err, "failed to start watch")
+		close(h.stopped)
 		return
 	}
 
 	go func() {
+		defer close(h.stopped)
 		logger.Info(ctx, "service discovery start")
 		defer logger.Warn(ctx, "service discovery exited")
 		var latestStatus types.ServiceStatus
@@ -95,11 +116,7 @@ func (h *Helium) start(ctx context.Context) {
 				}
 
 			case ID := <-h.unsubChan:
-				if entry, ok := h.subs.Get(ID); ok {
-					entry.cancel()
-					h.subs.Del(ID)
-					close(entry.ch)
-				}
+				h.unsubscribe(ID)
 
 			case <-ticker.C:
 			}
